@@ -115,7 +115,7 @@ def r1_exits(ctx: Context, v: CalibrateView) -> None:
 
 
 def r2_call_discipline(ctx: Context, v: CalibrateView) -> None:
-    n = normaliser(ctx.prog, v.cal, inline_locals=False)
+    n = normaliser(ctx.prog, v.cal, inline_locals=True)  # `precision = self.convergence_precision` held in a local reads as the attribute
     for c in v.convergence:
         args = [str(n.rat(a)) for a in c.args] + [f"{k.arg}={n.rat(k.value)}" for k in c.keywords]
         want = ["self.losses_samp", "self.n_sampled_params", "self.convergence_precision"]
